@@ -200,6 +200,13 @@ def compute_dyadic_downscaling(info, source_scale_index, downscaler,
 
     half_chunk = [osz // f
                   for osz, f in zip(old_chunk_size, downscaling_factors)]
+    for hc, ncs, nsz in zip(half_chunk, new_chunk_size, new_size):
+        # Each new chunk is assembled from at most 2 downscaled old chunks
+        # per axis, which must tile it exactly
+        if (hc < 1 or min(ncs, nsz) > 2 * hc
+                or (nsz > ncs and ncs % hc != 0)):
+            raise ValueError("Incompatible chunk sizes between scales "
+                             f"{old_key} and {new_key}")
     chunk_fetch_factor = [nsz // hc
                           for nsz, hc in zip(new_chunk_size, half_chunk)]
 
